@@ -83,8 +83,26 @@ def run(ctx):
     cons = [n for n in g.walk() if n["k"] in ("CXXConstructExpr", "CXXTemporaryObjectExpr") and callee(n) == "occa::trieNode::result_t::result_t" and len(kids(n)) == 3
             and any(x["k"] == "CXXThisExpr" for x in walk(kids(n)[0]))]
     lens = sorted({render(strip(kids(n)[1]), False) for n in cons})
-    if len(cons) < 2:
+    if len(cons) < 1:
         raise AnalysisBroken("trieNode::get: result constructions for `this` not found")
+    # the longest stored prefix: when the walk goes on below a node that holds a value and finds nothing there, that node is the answer
+    recs = [c for c in g.walk() if c["k"] == "CXXMemberCallExpr" and callee(c) == "occa::trieNode::get" and len(call_args(c)) == 3]
+    if not recs:
+        raise AnalysisBroken("trieNode::get: recursive descent not found")
+    for rc in recs:
+        direct = [r for r in g.walk() if r["k"] == "ReturnStmt" and any(x["i"] == rc["i"] for x in walk(r))]
+        holder = [v for v in g.walk() if v["k"] == "VarDecl" and kids(v) and any(x["i"] == rc["i"] for x in walk(v))]
+        fallback = False
+        if holder and not direct:
+            hv = holder[0]["d"]
+            for ifs in [n for n in g.walk() if n["k"] == "IfStmt"]:
+                ctext = render(kids(ifs)[0], False)
+                tests = any(x["k"] == "DeclRefExpr" and x.get("d") == hv for x in walk(kids(ifs)[0])) and ("success" in ctext or "valueIndex" in ctext)
+                uses_this = any(x["k"] == "CXXThisExpr" for x in walk(kids(ifs)[1]))
+                fallback = fallback or (tests and uses_this)
+        R.ob("C28-R2", fallback, g.q, "fallback:a failed deeper lookup falls back on this node's value", g.site(rc),
+             "the deeper result is tested and replaced by this node when it failed" if fallback else
+             "the result of the deeper lookup is returned as it is: a query that walks past a stored key and ends at a node without a value (\"ab\" with keys \"a\", \"abb\") is answered not-found by the unfrozen trie and \"a\" by the frozen one")
     for n in cons:
         ok = len(lens) == 1
         R.ob("C28-R2", ok, g.q, "result(this, %s, valueIndex)" % render(strip(kids(n)[1]), False), g.site(n),
